@@ -1,10 +1,12 @@
 /-
   Helper lemmas for the value-codec model (C03): decimal printing and parsing, zero padding,
-  `int()` on digit strings, fixed-width fields.
+  `int()` on digit strings, fixed-width fields, the duration regex against the RFC grammar,
+  `vDDDTypes.from_ical` dispatch, `str.split` on one separator, weekday / month tables.
+  Everything lives in `ICal.Codec` so that generic names cannot clash with other lemma files.
 -/
 import ICal.Model.Codec
 set_option linter.unusedSimpArgs false
-namespace ICal
+namespace ICal.Codec
 
 /-! ## characters -/
 
@@ -1822,4 +1824,76 @@ theorem rfcWeekdayNum_upper {t : Str} {i : Nat} {r : Option Int} (h : rfcWeekday
   rw [List.map_append, List.map_append]
   exact congr (congrArg _ (congr (congrArg _ h1) h2)) hup
 
-end ICal
+/-! ## pairwise disjointness of the five classes -/
+
+theorem isSome_false_of {α : Type} {o : Option α} (h : ∀ v, o = some v → False) : o.isSome = false := by
+  cases o with
+  | none => rfl
+  | some v => exact (h v rfl).elim
+
+theorem head_clash {t : Str} (h1 : ∃ c cs, t = c :: cs ∧ isDigit c = true)
+    (h2 : ∃ c cs, t = c :: cs ∧ isDigit c = false) : False := by
+  obtain ⟨c, cs, rfl, hc⟩ := h1
+  obtain ⟨c', cs', he, hc'⟩ := h2
+  simp only [List.cons.injEq] at he
+  rw [← he.1, hc] at hc'; cases hc'
+
+theorem disj_date_datetime {t : Str} {a : PDate} {b : PDateTime} (ha : rfcDate t = some a)
+    (hb : rfcDateTime t = some b) : False := by
+  have := (sig_date ha).1; have := (sig_datetime hb).1; omega
+
+theorem disj_date_time {t : Str} {a : PDate} {b : PTime} (ha : rfcDate t = some a)
+    (hb : rfcTime t = some b) : False := by
+  have := (sig_date ha).1; have := (sig_time hb).1; omega
+
+theorem disj_datetime_time {t : Str} {a : PDateTime} {b : PTime} (ha : rfcDateTime t = some a)
+    (hb : rfcTime t = some b) : False := by
+  have := (sig_datetime ha).1; have := (sig_time hb).1; omega
+
+theorem disj_date_dur {t : Str} {a : PDate} {b : Int} (ha : rfcDate t = some a)
+    (hb : rfcDuration t = some b) : False := head_clash (sig_date ha).2.1 (sig_duration hb)
+
+theorem disj_datetime_dur {t : Str} {a : PDateTime} {b : Int} (ha : rfcDateTime t = some a)
+    (hb : rfcDuration t = some b) : False := head_clash (sig_datetime ha).2.1 (sig_duration hb)
+
+theorem disj_time_dur {t : Str} {a : PTime} {b : Int} (ha : rfcTime t = some a)
+    (hb : rfcDuration t = some b) : False := head_clash (sig_time ha).2.1 (sig_duration hb)
+
+theorem disj_date_period {t : Str} {a : PDate} {b : DDD} (ha : rfcDate t = some a)
+    (hb : rfcPeriod t = some b) : False := (sig_date ha).2.2 (sig_period hb).2
+
+theorem disj_datetime_period {t : Str} {a : PDateTime} {b : DDD} (ha : rfcDateTime t = some a)
+    (hb : rfcPeriod t = some b) : False := (sig_datetime ha).2.2 (sig_period hb).2
+
+theorem disj_time_period {t : Str} {a : PTime} {b : DDD} (ha : rfcTime t = some a)
+    (hb : rfcPeriod t = some b) : False := (sig_time ha).2.2 (sig_period hb).2
+
+theorem disj_dur_period {t : Str} {a : Int} {b : DDD} (ha : rfcDuration t = some a)
+    (hb : rfcPeriod t = some b) : False := head_clash (sig_period hb).1 (sig_duration ha)
+
+theorem rfcMonth_vMonthTo (n : Nat) (leap : Bool) (h1 : 1 ≤ n) (h2 : n ≤ 12) :
+    rfcMonth (vMonthTo n leap) = some ((n : Int), leap) := by
+  unfold vMonthTo
+  rw [intToStr_nat]
+  have hL : ∀ k, k < 10 → dig k ≠ 'L' := fun k hk => isDigit_ne _ 'L' (isDigit_dig k hk)
+  by_cases hn : n < 10
+  · rw [natToStr_lt10 n hn]
+    have hd := isDigit_dig n hn
+    have hv := digitVal_dig n hn
+    cases leap
+    · simp [rfcMonth, hL n hn, hd, hv, h1]
+    · simp [rfcMonth, hd, hv, h1]
+  · rw [natToStr_2 n (by omega) (by omega)]
+    have hd1 := isDigit_dig (n / 10) (by omega)
+    have hd2 := isDigit_dig (n % 10) (by omega)
+    have hv := num2_dig n (by omega)
+    cases leap
+    · simp [rfcMonth, hL (n % 10) (by omega), hd1, hd2, hv, h1, h2]
+    · simp [rfcMonth, hd1, hd2, hv, h1, h2]
+
+theorem rfcFreq_freqTo (s : Str) (h : s ∈ frequencies) : rfcFreq (freqTo s) = some s := by
+  unfold freqTo rfcFreq
+  rw [mem_frequencies_upper h]
+  simp [h]
+
+end ICal.Codec
